@@ -77,6 +77,12 @@ Lifecycle == conf.lifecycle
 CTimeout == conf.ctimeout
 Registered == {h \in H : HC[h].reasons # {}}
 
+\* sub-handlers (optional): conf.subs = [parent id |-> the ids its function registers with @kopf.subhandler, in that order]; the ids
+\* are members of H that are not registered at the top level (their HC entry carries the defaults of a sub-handler)
+SubOf(h) == IF "subs" \in DOMAIN conf THEN conf.subs[h] ELSE <<>>
+AllSubs == UNION {Range(SubOf(h)) : h \in H}
+Top == H \ AllSubs
+
 \* daemons and timers (optional): conf.dh = [id |-> [kind ("daemon" | "timer" | "none"), backoff (0 = None), timeout (0 = None), sync]],
 \* conf.polling = settings.background.cancellation_polling, conf.exitto = settings.queueing.exit_timeout
 HasD == "dh" \in DOMAIN conf
@@ -90,7 +96,8 @@ NoRun == [on |-> FALSE, started |-> FALSE, exited |-> FALSE, flag |-> FALSE, whe
 NoCyc == [s |-> [type |-> "none"], reason |-> "none", initial |-> FALSE, sel |-> {}, plan |-> <<>>, np |-> [h \in H |-> NoRec],
           purge |-> FALSE, inv |-> {}, fns |-> {}, req |-> [k |-> "none"], fresh |-> 0, ffins |-> <<>>, rv |-> 0, rem |-> {}, gone |-> FALSE, delays |-> {}, skipped |-> FALSE,
           wake |-> 0, last |-> [h |-> "none"],
-          todo |-> {}, cur |-> "none", ph |-> "none", age |-> 0, sdelays |-> {}, ct |-> 0]      \* the stopping of daemons: see StopSet / Stage
+          todo |-> {}, cur |-> "none", ph |-> "none", age |-> 0, sdelays |-> {}, ct |-> 0,      \* the stopping of daemons: see StopSet / Stage
+          sub |-> [p |-> "none", plan |-> <<>>]]                                               \* the sub-handlers of the handler that is running
 FreshMem == [known |-> FALSE, nbl |-> FALSE, fho |-> FALSE, rem |-> {}, forever |-> {}, run |-> [h \in DHs |-> NoRun]]
 FreshWk == [exp |-> 0, ctime |-> 0, pr |-> FALSE, eos |-> FALSE]      \* eos: the end-of-stream marker sits behind what is queued
 
@@ -226,22 +233,24 @@ SelHandlers(reason, initial, deleting) ==      \* ChangingRegistry.iter_handlers
              \/ ("resume" \in HC[h].reasons /\ CauseInitial(reason, initial) /\ (deleting => HC[h].deleted))}
 
 Awake(p) == ~Finished(p) /\ p.until <= now
-InOrder(S) == SelectSeq(Order, LAMBDA h : h \in S)
-PlanOf(todo, recs) ==
+InOrderOf(order, S) == SelectSeq(order, LAMBDA h : h \in S)
+PlanIn(order, todo, recs) ==
   IF todo = {} THEN <<>>
-  ELSE IF Lifecycle = "all" THEN InOrder(todo)
-  ELSE IF Lifecycle = "one" THEN << Head(InOrder(todo)) >>
-  ELSE LET m == MinOf({recs[h].r : h \in todo}) IN << Head(InOrder({h \in todo : recs[h].r = m})) >>
+  ELSE IF Lifecycle = "all" THEN InOrderOf(order, todo)
+  ELSE IF Lifecycle = "one" THEN << Head(InOrderOf(order, todo)) >>
+  ELSE LET m == MinOf({recs[h].r : h \in todo}) IN << Head(InOrderOf(order, {h \in todo : recs[h].r = m})) >>
+PlanOf(todo, recs) == PlanIn(Order, todo, recs)
 
 \* State.from_storage(...).with_purpose(reason).with_handlers(sel), incl. re-purposing of superseded records
 Prepared(s, reason, sel) ==
-  LET extras0 == {s.prog[h].pu : h \in {x \in H : s.prog[x].st # "none"}} \ {"none", reason}
+  \* (State.from_storage loads the records of the handlers registered at the top level only: Top)
+  LET extras0 == {s.prog[h].pu : h \in {x \in Top : s.prog[x].st # "none"}} \ {"none", reason}
       rec(h) == IF h \in sel
                 THEN IF s.prog[h].st = "none" THEN [st |-> "pend", r |-> 0, pu |-> reason, until |-> 0]
                      ELSE IF extras0 # {} THEN [s.prog[h] EXCEPT !.pu = reason] ELSE s.prog[h]
                 ELSE s.prog[h]
       np == [h \in H |-> rec(h)]
-      extras1 == {np[h].pu : h \in {x \in H : np[x].st # "none"}} \ {"none", reason}
+      extras1 == {np[h].pu : h \in {x \in Top : np[x].st # "none"}} \ {"none", reason}
   IN [np |-> np, purge |-> extras1 # {}]
 
 \* the second half of ProcBegin (also reached after the consistency wait)
@@ -383,28 +392,58 @@ After(p, h, o) ==       \* HandlerState.with_outcome + the look-ahead of the ret
                           ELSE IF HC[h].mode = "permanent" \/ last THEN [p EXCEPT !.st = "fail", !.r = r2, !.until = 0]
                           ELSE [p EXCEPT !.st = "retry", !.r = r2, !.until = now + HC[h].backoff]
 
+LastOf(h, p) == [h |-> h, retry |-> p.r, reason |-> cyc.reason, rv |-> cyc.s.rv,
+                 deleting |-> cyc.s.deleting, blocked |-> Blocked(cyc.s),
+                 wasfinished |-> Finished(cyc.s.prog[h]), recr |-> cyc.s.prog[h].r,
+                 due |-> cyc.s.prog[h].until, kinds |-> HC[h].reasons,
+                 ownrv |-> gh.ownrv, owntime |-> gh.owntime]
+\* the bookkeeping of the properties when handler h ends an invocation with record q (outcome kind k)
+GhAfter(h, q, k) ==
+  [gh EXCEPT !.succ[h] = IF q.st = "succ" /\ k = "ok" THEN @ + 1 ELSE @,
+             !.seen[h] = IF q.st = "succ" THEN cyc.s.ess ELSE @,
+             !.cseen[h] = IF q.st = "succ" THEN cyc.s.ess ELSE @,
+             !.deldone = IF cyc.reason = "delete" /\ Finished(q) THEN @ \cup {h} ELSE @,
+             !.resumed[h] = IF "resume" \in HC[h].reasons /\ HC[h].reasons = {"resume"} /\ Finished(q) THEN @ + 1 ELSE @]
 InvokeWith(h, o) ==
   /\ up /\ pc = "plan" /\ cyc.plan # <<>> /\ Head(cyc.plan) = h
   /\ (o.k # "ok" => bud.fails < MaxFails)
   /\ LET p == cyc.np[h]
          q == After(p, h, o)
-         isok == q.st = "succ"
-     IN /\ cyc' = [cyc EXCEPT !.plan = Tail(@), !.np[h] = q, !.inv = @ \cup {h},
-                              !.last = [h |-> h, retry |-> p.r, reason |-> cyc.reason, rv |-> cyc.s.rv,
-                                        deleting |-> cyc.s.deleting, blocked |-> Blocked(cyc.s),
-                                        wasfinished |-> Finished(cyc.s.prog[h]), recr |-> cyc.s.prog[h].r,
-                                        due |-> cyc.s.prog[h].until, kinds |-> HC[h].reasons,
-                                        ownrv |-> gh.ownrv, owntime |-> gh.owntime]]
+     IN IF SubOf(h) # <<>> /\ o.k = "ok"
+        THEN \* the function has registered its sub-handlers and returned: they are executed in its context (subhandling.execute):
+             \* their records are those of the view (new ones are created for the cause), the lifecycle picks among the awake ones
+             LET S == Range(SubOf(h))
+                 rec(x) == IF cyc.s.prog[x].st = "none" THEN [st |-> "pend", r |-> 0, pu |-> cyc.reason, until |-> 0] ELSE cyc.s.prog[x]
+                 np1 == [x \in H |-> IF x \in S THEN rec(x) ELSE cyc.np[x]]
+                 todo == {x \in S : Awake(np1[x])}
+             IN /\ cyc' = [cyc EXCEPT !.np = np1, !.sub = [p |-> h, plan |-> PlanIn(SubOf(h), todo, np1)], !.last = LastOf(h, p)]
+                /\ pc' = "subs" /\ UNCHANGED <<bud, gh>>
+        ELSE /\ cyc' = [cyc EXCEPT !.plan = Tail(@), !.np[h] = q, !.inv = @ \cup {h}, !.last = LastOf(h, p)]
+             /\ bud' = [bud EXCEPT !.fails = IF o.k = "ok" THEN @ ELSE @ + 1]
+             /\ gh' = GhAfter(h, q, o.k)
+             /\ UNCHANGED pc
+  /\ UNCHANGED <<obj, chan, bl, up, stopping, mem, wk, now>>
+InvokeSub(x, o) ==    \* one sub-handler runs
+  /\ up /\ pc = "subs" /\ cyc.sub.plan # <<>> /\ Head(cyc.sub.plan) = x
+  /\ (o.k # "ok" => bud.fails < MaxFails)
+  /\ LET p == cyc.np[x]  q == After(p, x, o)
+     IN /\ cyc' = [cyc EXCEPT !.sub.plan = Tail(@), !.np[x] = q, !.inv = @ \cup {x}, !.last = LastOf(x, p)]
         /\ bud' = [bud EXCEPT !.fails = IF o.k = "ok" THEN @ ELSE @ + 1]
-        /\ gh' = [gh EXCEPT !.succ[h] = IF isok /\ o.k = "ok" THEN @ + 1 ELSE @,
-                            !.seen[h] = IF isok THEN cyc.s.ess ELSE @,
-                            !.cseen[h] = IF isok THEN cyc.s.ess ELSE @,
-                            !.deldone = IF cyc.reason = "delete" /\ Finished(q) THEN @ \cup {h} ELSE @,
-                            !.resumed[h] = IF "resume" \in HC[h].reasons /\ HC[h].reasons = {"resume"} /\ Finished(q)
-                                           THEN @ + 1 ELSE @]
+        /\ gh' = GhAfter(x, q, o.k)
   /\ UNCHANGED <<obj, chan, bl, up, stopping, mem, wk, pc, now>>
-Invoke == \E h \in H : \E o \in Outcomes : InvokeWith(h, o)
-  /\ UNCHANGED conf
+ParentEnd ==          \* the sub-handlers chosen for this round have run: done if all of them have finished, else HandlerChildrenRetry
+  /\ up /\ pc = "subs" /\ cyc.sub.plan = <<>>
+  /\ LET h == cyc.sub.p  p == cyc.np[h]
+         open == {x \in Range(SubOf(h)) : ~Finished(cyc.np[x])}
+         q == IF open = {} THEN [p EXCEPT !.st = "succ", !.r = p.r + 1, !.until = 0]
+              ELSE [p EXCEPT !.st = "retry", !.r = p.r + 1, !.until = now + MinOf({MaxN(cyc.np[x].until, now) - now : x \in open})]
+     IN /\ cyc' = [cyc EXCEPT !.plan = Tail(@), !.np[h] = q, !.inv = @ \cup {h}, !.sub = [p |-> "none", plan |-> <<>>]]
+        /\ gh' = GhAfter(h, q, "ok")
+  /\ pc' = "plan"
+  /\ UNCHANGED <<obj, chan, bl, up, stopping, mem, wk, now, bud>>
+Invoke == /\ \/ \E h \in H : \E o \in Outcomes : InvokeWith(h, o) \/ InvokeSub(h, o)
+             \/ ParentEnd
+          /\ UNCHANGED conf
 
 FnsApply(fins, fns) ==      \* finalizers.block_deletion / allow_deletion applied in the order they were appended
   LET a == IF "add" \in fns /\ K \notin Range(fins) THEN Append(fins, K) ELSE fins
